@@ -25,7 +25,7 @@ FS_CONSTS = [
     ("sim_fd_base_log2", FS_LIB, r"pub const SIM_FD_BASE: RawFd = 1 << (\d+);", "N"),
 ]
 
-KLASS_IDS = {"RootOp": 1, "RenameSelf": 2, "RenameFile": 3, "RenameDir": 4, "StaleHandle": 5,
+KLASS_IDS = {"RootOp": 1, "RenameSelf": 2, "RenameFileAny": 3, "RenameDir": 4, "StaleHandle": 5,
              "Recreate": 6}
 
 HEADER = ("From TV.Lib Require Import Base.\nFrom TV.Fs Require Import FsImpl FsSpec FsSafe.\n"
@@ -115,6 +115,9 @@ class Spec(PropSpec):
             c = F.gen_safe(rng, stale=0.0, tokio=0.5, latency=rng.random() < 0.5)
             c["flavour"] += "+tokio"
             cases.append(c)
+        # renames of files whose data is synced and that are left alone until the rename is flushed
+        # (outside every known class; asserted by the oracle, not covered by c10_refines)
+        cases += [F.gen_clean_rename(rng, syncs=0.25, setup_sync=rng.choice([0, 1, 2])) for _ in range(120 * k)]
         # two hosts of a real turmoil::Sim with identical path names (per-host Fs entered by the Sim)
         for _ in range(40 * k):
             c = F.gen_safe(rng, stale=0.0, nhosts=2)
